@@ -63,23 +63,10 @@ def overrides_from_patch(patch_path, root=None):
 
 def run_rules(pid, overrides):
     """returns (status, checker): status in ok|violation|error"""
-    from sa.ctx import Ctx
-    mod = importlib.import_module(f"rules.{pid.lower()}")
+    from sa.driver import execute
     chk = Checker(pid, quiet=True)
     try:
-        ctx = Ctx(overrides=overrides)
-        import sa.interp as _ip
-        del _ip.OPAQUE[:]
-        del _ip.UNSUPPORTED[:]
-        try:
-            mod.run(ctx, chk)
-        except AnalysisError as e:
-            import re
-            m = re.match(r"anchor function (\S+):(\S+) not found", str(e))
-            leaf = m.group(2).split(".")[-1] if m else ""
-            if not m or not leaf.startswith("_") or leaf.startswith("__"):
-                raise
-            chk.undecided("engine.anchor", f"{m.group(1)}:{m.group(2)}", "private helper vanished")
+        execute(pid, chk, overrides)
         rc = chk.finish(write=False)
     except AnalysisError as e:
         chk.error = str(e)
